@@ -192,6 +192,12 @@ func runC02(r *ev.Run) {
 					n := p.Normalized()
 					expect = append(expect, n.FEN())
 					paths = append(paths, ps)
+					if root.FEN == StartPosFEN {
+						// the other way of setting up a game
+						fmt.Fprintf(&script, "position startpos moves %s\nfen\n", strings.Join(ps, " "))
+						expect = append(expect, n.FEN())
+						paths = append(paths, ps)
+					}
 				}
 				if len(w.Path) == 2 && u2nodes.Load()%40000 == 1 {
 					r.Sample(map[string]any{"root": root.FEN, "moves": w.PathStrings(), "successor": w.B.FEN()})
